@@ -608,7 +608,7 @@ def sec_lo(rep):
     classes, errors = H.all_partonic_channel_classes()
     rep.add(ob_eval("C02/LO/module-scan-complete", not errors, detail=str(errors)[:500]))
     sy = H.Sy()
-    pre = [sy.x > 0, sy.x < 1, sy.Q2 > 0] + sy.mass_pre()
+    pre = [sy.x > 0, sy.x <= 1, sy.Q2 > 0] + sy.mass_pre()
     n = 0
     for cls in sorted(classes, key=lambda c: (c.__module__, c.__name__)):
         mod = cls.__module__.split(".")
@@ -729,7 +729,7 @@ def sec_lo_view_heavyness(rep):
 
     rep.under_contract(cf.Combiner.collect)
     sy = H.Sy()
-    pre = [sy.x > 0, sy.x < 1, sy.Q2 > 0] + sy.mass_pre()
+    pre = [sy.x > 0, sy.x <= 1, sy.Q2 > 0] + sy.mass_pre()
     flav_q = {"charm": 4, "bottom": 5, "top": 6}
     for process in H.PROCESSES:
         for proj, pid in H.PROJECTILES.items():
